@@ -447,7 +447,9 @@ func run(tier string) int {
 }
 
 func worker(tier string, shard, nshards int) int {
-	debug.SetGCPercent(800)
+	// allocation-heavy callee, tiny live heap: collect only when 1 GiB of garbage has piled up
+	debug.SetGCPercent(-1)
+	debug.SetMemoryLimit(int64(envInt("VERIF_C09_MEMLIMIT_MB", 64)) << 20)
 	budget := engine.NewBudget(deadline(tier))
 	fr, err := newFlatRunner()
 	if err != nil {
@@ -455,15 +457,16 @@ func worker(tier string, shard, nshards int) int {
 		engine.FlushEmit()
 		return 0
 	}
-	blocks := Blocks(tier)
-	for bi := range blocks {
-		st := fr.runBlock(bi, &blocks[bi], shard, nshards, budget)
-		engine.Emit(st)
-		engine.FlushEmit()
-	}
+	// hierarchy first (cheap), then the flat blocks from cheapest to largest
 	trees := treeLattices(tier)
 	for bi := range trees {
 		st := runTreeBlock(bi, &trees[bi], shard, nshards, budget)
+		engine.Emit(st)
+		engine.FlushEmit()
+	}
+	blocks := Blocks(tier)
+	for bi := range blocks {
+		st := fr.runBlock(bi, &blocks[bi], shard, nshards, budget)
 		engine.Emit(st)
 		engine.FlushEmit()
 	}
@@ -641,9 +644,10 @@ func parent(tier string) int {
 		"strict_reading_of_law_e_fail": tightE,
 		"resources_checked":            unitsDoc,
 		"order_plans": map[string]string{
-			"perms":    "tie-break 0 x all n! insertion orders of the queue map under map seed 0 (= every iteration order) + identity insertion order under seeds 1..n-1",
-			"perms+tb": "perms + tie-break 1 (reversed creation timestamps) x {identity, reversed} insertion order",
-			"all":      "tie-break {0,1} x all n! insertion orders x map seeds 0..n-1",
+			"perms": "tie-break 0 (equal creation timestamps) x all n! insertion orders of the queue map under map seed 0 (= every iteration order of the queue map)",
+			"seeds": "+ identity insertion order under map seeds 1..n-1 (rotates the internally built maps differently from the queue map)",
+			"tb":    "+ tie-break 1 (reversed creation timestamps: last queue oldest) x {identity, reversed} insertion order",
+			"all":   "tie-break {0,1} x all n! insertion orders x map seeds 0..n-1",
 			"note":     "map seeds s >= n iterate every map with <= n entries exactly like seed 0 (asserted at start-up by probing the real maps under seeds 0..7), so seeds 0..7 collapse to 0..n-1",
 		},
 	}
